@@ -412,6 +412,54 @@ class Kernel:
             self.env[a] = ("vec", [Counter({("sum", a, l): 1}) for l in range(len(lanes))]) if v[0] == "vec" else ("scalar", Counter({("sum", a, 0): 1}))
 
 
+def pack_provenance(pack):
+    """The vector loaded in pack_sincs must be a plain view of the table it was given: the load reads `&E[0]` where E is the loop
+    variable of `S.chunks(W)`, S the loop variable of `<param>.iter()`; nothing is computed from the taps on the way.  Returns (ok, why)."""
+    loads = [x for x in walk(pack["body"]) if x.get("k") == "call" and is_path(x["f"]) and x["f"]["p"] in INTR and INTR[x["f"]["p"]][0] == "load"]
+    if len(loads) != 1:
+        return False, "%d load intrinsics in pack_sincs (expected 1)" % len(loads)
+    arg = loads[0]["args"][0]
+    if not (arg.get("k") == "ref" and arg["e"].get("k") == "index" and is_path(arg["e"]["e"])):
+        return False, "load argument `%s` is not &E[0]" % show(arg)
+    ename = arg["e"]["e"]["p"]
+    b = ir.binding_of(pack, arg["e"]["e"], ename)
+    if b is None or b[0] != "for":
+        return False, "`%s` is bound by %s, not by the loop over the chunks of a table row" % (ename, "a `let` at line %s (the taps are transformed before packing)" % b[1].get("ln") if b and b[0] == "let" else (b and b[0]))
+    it = b[1]["iter"] if "iter" in b[1] else b[1].get("e")
+    if not (it.get("k") == "mcall" and it["name"] == "chunks" and is_path(it["recv"])):
+        return False, "`%s` iterates `%s`, not <row>.chunks(W)" % (ename, show(it)[:50])
+    sname = it["recv"]["p"]
+    b2 = ir.binding_of(pack, it["recv"], sname)
+    if b2 is None or b2[0] != "for":
+        return False, "`%s` is bound by %s, not by the loop over the table rows" % (sname, b2 and b2[0])
+    it2 = b2[1]["iter"] if "iter" in b2[1] else b2[1].get("e")
+    if not (it2.get("k") == "mcall" and it2["name"] in ("iter", "into_iter") and is_path(it2["recv"])):
+        return False, "`%s` iterates `%s`, not <table>.iter()" % (sname, show(it2)[:50])
+    tname = it2["recv"]["p"]
+    b3 = ir.binding_of(pack, it2["recv"], tname)
+    if b3 is None or b3[0] != "param":
+        return False, "`%s` is not the parameter of pack_sincs (bound by %s)" % (tname, b3 and b3[0])
+    # the loaded vector is what gets stored: every `push` in the function pushes either the load (or the local holding it) or a vector
+    # that is only ever pushed to (created by Vec::new / Vec::with_capacity)
+    pushes = [x for x in walk(pack["body"]) if x.get("k") == "mcall" and x["name"] == "push"]
+    if len(pushes) != 2:
+        return False, "%d push calls in pack_sincs (expected: one per vector, one per row)" % len(pushes)
+    for p in pushes:
+        a = p["args"][0]
+        if a is loads[0] or (a.get("k") == "call" and a is loads[0]):
+            continue
+        if not is_path(a):
+            return False, "pushes `%s`: not the loaded vector itself" % show(a)[:50]
+        bb = ir.binding_of(pack, a, a["p"])
+        init = bb[1].get("init") if bb and bb[0] == "let" else None
+        if init is loads[0]:
+            continue
+        if init is not None and init.get("k") == "call" and is_path(init["f"]) and init["f"]["p"] in ("Vec::new", "Vec::with_capacity"):
+            continue
+        return False, "pushes `%s`, which is neither the loaded vector nor a fresh row vector" % a["p"]
+    return True, "load reads &%s[0], %s <- %s.chunks(W), %s <- %s.iter(), %s is the parameter" % (ename, ename, sname, sname, tname, tname)
+
+
 def analyse_kernel(facts, self_ty, trait, label):
     pack = find_impl_fn(facts, self_ty, trait, "pack_sincs")
     # pack width: `for elements in sinc.chunks(W)` + load intrinsic lanes
@@ -431,6 +479,7 @@ def analyse_kernel(facts, self_ty, trait, label):
     fn = find_impl_fn(facts, self_ty, trait, "get_sinc_interpolated_unsafe")
     kz = Kernel(fn, label, cw)
     kz.pack_chunk, kz.pack_load = cw, lw
+    kz.pack_view = pack_provenance(pack)
     kz.run()
     return kz
 
@@ -482,6 +531,8 @@ def check_kernel(rep, R, kz, want_bounds=False):
        "loop runs 0..%s/%s (must be N/8 with N the window length)" % (kz.trip_src, kz.trip_div))
     if not kz.scalar:
         ob("pack", kz.pack_chunk == kz.pack_load, "pack_sincs packs chunks of %s into vectors of %s lanes" % (kz.pack_chunk, kz.pack_load))
+        pv = getattr(kz, "pack_view", (False, "not analysed"))
+        ob("pack-view", pv[0], "the packed table holds the taps of make_sincs unchanged: %s" % pv[1])
     w = kz.window
     wok = w is not None and not w.get("incl") and nbit(w["lo"]) == "index" and nbit(w["hi"]) in ("(index + length)", "(length + index)", "(index + self.sincs[subindex].len())")
     ob("reads", wok, "the waveform is accessed only through %s = &wave[%s..%s] (must be index..index+length)" % (w and w["name"], w and show(w["lo"]), w and show(w["hi"])))
@@ -592,7 +643,7 @@ def run(rep):
     rep.guarded("R-C15-dispatch", rule_dispatch)
     import C03
     rep.guarded("R-C03-guard", C03.rule_guard)
-    rep.floor("R-C15-lanes", 6 * 8 + 7)
+    rep.floor("R-C15-lanes", 6 * 9 + 7)
     rep.floor("R-C15-dispatch", 2 + 4 * 3 + 3 * 2)
     rep.floor("R-C03-guard", 18)
     rep.extra["intrinsic_table"] = {k: list(v) for k, v in sorted(INTR.items())}
